@@ -121,18 +121,25 @@ def figure_fingerprint(x):
     fig = _fig_of(x)
     if fig is None:
         return None
-    out = {"figure": True, "size": [round(float(v), 6) for v in fig.get_size_inches()], "axes": []}
+    out = {"figure": True, "size": [round(float(v), 6) for v in fig.get_size_inches()], "fig_facecolor": _arr(fig.get_facecolor()),
+           "axes": []}
     for ax in fig.axes:
         a = {
             "xlabel": ax.get_xlabel(), "ylabel": ax.get_ylabel(), "title": ax.get_title(),
             "xscale": ax.get_xscale(), "yscale": ax.get_yscale(), "visible": bool(ax.get_visible()),
             "xticks": _arr(ax.get_xticks()), "yticks": _arr(ax.get_yticks()),
+            "facecolor": _arr(ax.get_facecolor()), "frame_on": bool(ax.get_frame_on()),
+            "spines_visible": sorted(k for k, sp in ax.spines.items() if sp.get_visible()),
+            "grid": [bool(ax.xaxis._major_tick_kw.get("gridOn", False)), bool(ax.yaxis._major_tick_kw.get("gridOn", False))],
+            "tick_fontsize": [round(float(t.get_fontsize()), 6) for t in (ax.get_xticklabels()[:1] + ax.get_yticklabels()[:1])],
+            "xlim": _arr(ax.get_xlim()), "ylim": _arr(ax.get_ylim()),
             "xticklabels": [t.get_text() for t in ax.get_xticklabels()],
             "yticklabels": [t.get_text() for t in ax.get_yticklabels()],
             "lines": [], "collections": [], "images": [], "texts": [], "patches": [],
         }
         for ln in ax.lines:
             a["lines"].append({"x": _arr(ln.get_xdata()), "y": _arr(ln.get_ydata()), "color": canon(ln.get_color()),
+                               "lw": round(float(ln.get_linewidth()), 6), "marker": str(ln.get_marker()),
                                "ls": str(ln.get_linestyle()), "ds": str(ln.get_drawstyle())})
         for col in ax.collections:
             c = {"type": type(col).__name__}
@@ -233,9 +240,11 @@ def snap(x, depth=0):
         return ["deep"]
     if isinstance(x, pd.DataFrame):
         return ["df", [repr(c) for c in x.columns], [repr(i) for i in x.index], [str(t) for t in x.dtypes],
-                [[_cell(v) for v in row] for row in x.to_numpy(dtype=object).tolist()], repr(x.index.names), repr(x.columns.names)]
+                [[_cell(v) for v in row] for row in x.to_numpy(dtype=object).tolist()], repr(x.index.names), repr(x.columns.names),
+                repr(sorted(x.attrs.items(), key=repr))]
     if isinstance(x, pd.Series):
-        return ["series", str(x.dtype), repr(x.name), [repr(i) for i in x.index], [_cell(v) for v in x.tolist()]]
+        return ["series", str(x.dtype), repr(x.name), [repr(i) for i in x.index], [_cell(v) for v in x.tolist()], repr(x.index.name),
+                repr(sorted(x.attrs.items(), key=repr))]
     if isinstance(x, np.ndarray):
         if x.dtype == object:
             return ["nd", "object", list(x.shape), [_cell(v) for v in x.ravel().tolist()]]
